@@ -210,6 +210,20 @@ def uuid_part(res, work, tier, rng):
     return len(s["drifts"])
 
 
+def mres_part(res, work, tier):
+    """C02, last sentence: a MatchResult built incrementally (MatchResultMod.tla)"""
+    cfg = write_cfg(work, "mres", "MatchResultMod", subst={"EmitReplays": "TRUE", "MaxOps": "4" if tier == "quick" else "5"}, add=["INVARIANT Inv_Emit"])
+    r = require_ok(tlc("MatchResultMod", cfg, work, workers=4), "model check of incremental match results")
+    res.add(states=r["distinct"], transitions=r["generated"], mres_mc_states=r["distinct"])
+    cases = [{"init": rp["init"], "ops": rp["ops"]} for rp in r["prints"].get("REPLAY", [])]
+    h = run_harness("mres", [{"cases": cases, "random": 300 if tier == "quick" else 20000, "seed": seed()}], work, "mres")
+    s = tv(h["trace"], "TraceMres", "TraceMres", work)
+    res.add(traces_validated_against_impl=s["lines"], mres_constructions=s["lines"], mres_steps=s["steps"])
+    if s["bad"]:
+        bad = read_trace_lines(h["trace"])[s["firstbad"] - 1]
+        res.violation("an incrementally built MatchResult disagrees with MatchResultMod (%d constructions)" % s["bad"], {"driver": "mres", "case": bad})
+
+
 def seq_cfg(work, name, base, invs, subst=None, emit=False):
     sub = dict(subst or {})
     sub["EmitReplays"] = "TRUE" if emit else "FALSE"
@@ -261,6 +275,8 @@ def check_seq(prop, tier):
             if "Inv_C04raw" not in rw["violated"]:
                 raise ToolError("the model no longer contains the tail re-queue / stale ticket deviations: C04 check would be vacuous")
 
+        if prop == "C02":
+            mres_part(res, work, tier)
         # 3. specification -> implementation: the model's histories replayed in the real code
         cap = 800 if tier == "quick" else 20000
         if len(replays) > cap:
